@@ -10,7 +10,7 @@ from oracles import classes as K
 PID = 'C07'
 
 META = dict(
-    explanation="mec (with and without the chain shortcut), all_dags and is_consistent_extension are executed on every DAG "
+    explanation="mec (with and without the chain shortcut), all_dags and is_consistent_extension (with 0/1 and with real-weighted candidate DAGs) are executed on every DAG "
                 "pattern with symbolic real weights (the chain test `A == chain_graph(p)` forks on 'all weights equal 1'), on "
                 "0/1 DAGs of int and float dtype, and on every binary PDAG with acyclic directed part; the returned stacks are "
                 "compared as sets (and for duplicates) with the brute-force class computed from the definition (all acyclic "
@@ -44,7 +44,7 @@ def h_mec_weighted(ctx):
     cl = []
     for cc in (True, False):
         _cmp_stack(cl, 'mec(check_chain=%s)' % cc, log.call(u, 'mec', M, cc), want)
-    for dt in ('int', 'float'):
+    for dt in ('int', 'float', 'bool'):
         B = I.arr(pat, dt)
         _cmp_stack(cl, 'mec(0/1 %s)' % dt, log.call(u, 'mec', B), want)
     return PathResult('checked', cl, inputs=dict(calls=log.inputs(), A=rows), call='mec',
@@ -131,6 +131,26 @@ def h_pdag(ctx):
         else:
             cl.append(('is_consistent_extension decides membership of the extension set',
                        r[0] == 'ok' and bool(r[1]) == (D in set(E))))
+    # the candidate DAG may be a WEIGHT matrix (any real weights) while P is a 0/1 integer matrix
+    e = ctx.eng
+    gw = {}
+    nw = 0
+    for D in _candidates(pat, p):
+        nD = K.nzb(D)
+        if nw >= 4 or not G.c_is_acyclic(nD) or not any(any(r_) for r_ in D):
+            continue
+        nw += 1
+        rowsw = [[0.0] * p for _ in range(p)]
+        for i in range(p):
+            for j in range(p):
+                if D[i][j]:
+                    if (i, j) not in gw:
+                        gw[(i, j)] = e.real('gw_%d_%d' % (i, j))
+                        e.assume(gw[(i, j)] != 0)
+                    rowsw[i][j] = gw[(i, j)]
+        r = log.call(u, 'is_consistent_extension', I.arr(rowsw, 'float'), P)
+        cl.append(('is_consistent_extension decides membership for a weighted DAG G (any non-zero real weights) and a 0/1 integer P',
+                   r[0] == 'ok' and bool(r[1]) == (D in set(E))))
     return PathResult('has extension' if E else 'no extension', cl,
                       inputs=dict(calls=log.inputs(), P=[list(r) for r in pat]), call='pdag',
                       info=dict(pattern=[list(r) for r in pat], extensions=len(E)),
@@ -210,6 +230,21 @@ def replay(rec):
                 except ValueError:
                     if G.c_is_acyclic(K.nzb(D)):
                         bad.append('is_consistent_extension raised ValueError for DAG %s' % (D,))
+            # weighted candidates recorded on the path
+            from harness.calllog import dec_real
+            for fname, eargs in inp.get('calls', []):
+                if fname != 'is_consistent_extension':
+                    continue
+                Gw = dec_real(eargs[0])
+                if Gw.dtype.kind != 'f':
+                    continue
+                D = tuple(tuple(1 if x != 0 else 0 for x in r_) for r_ in Gw.tolist())
+                try:
+                    r = bool(u.is_consistent_extension(Gw, P.copy()))
+                    if r != (D in set(E)):
+                        bad.append('is_consistent_extension(weighted G=%s, P) = %s, membership is %s' % (Gw.tolist(), r, D in set(E)))
+                except ValueError:
+                    bad.append('is_consistent_extension raised ValueError for the weighted DAG %s' % (Gw.tolist(),))
     except Exception as ex:
         bad.append('raised %s: %s' % (type(ex).__name__, ex))
     return (len(bad) > 0, '; '.join(bad[:4]) or 'definitions satisfied')
